@@ -87,7 +87,7 @@ R.contract(
             modifies=["self.best_individual", "self.hist[]", "class:SearchRecorder"],
         )
     },
-    modifies=["self.best_individual", "self.hist[]", "class:SearchRecorder", "self.evaluator.count", "self.problem.ff.fn.ncalls", "all:dict", "all:field:phenotype"],
+    modifies=["self.best_individual", "self.hist[]", "class:SearchRecorder", "self.evaluator.count", "self.problem.ff.fn.ncalls", "all:dict[Problem,Fitness]", "all:field:phenotype"],
     props=["C12", "C14"],
 )
 R.contract(
@@ -197,7 +197,7 @@ def search_contract(key, file, batch, extra_req=None, loops=None, extra_fields=N
         },
         loops=loops,
         modifies=["self.tracker.best_individual", "self.tracker.hist[]", "class:SearchRecorder", "self.tracker.evaluator.count",
-                  "self.problem.ff.fn.ncalls", "all:dict", "all:field:phenotype", "self.random.*"],
+                  "self.problem.ff.fn.ncalls", "all:dict[Problem,Fitness]", "all:field:phenotype", "self.random.*"],
         props=["C12", "C14"],
     )
 
@@ -212,7 +212,7 @@ LOOP_INV = {
     "self.budget.evaluations_budget == old(self.budget.evaluations_budget)",
 }
 LOOP_MOD = ["self.tracker.best_individual", "self.tracker.hist[]", "class:SearchRecorder", "self.tracker.evaluator.count",
-            "self.problem.ff.fn.ncalls", "all:dict", "all:field:phenotype", "self.random.*"]
+            "self.problem.ff.fn.ncalls", "all:dict[Problem,Fitness]", "all:field:phenotype", "self.random.*"]
 search_contract(
     "RandomSearch", RS, 1,
     loops={0: Loop(invariants={k: v.format(batch=1) for k, v in LOOP_INV.items()}, modifies=LOOP_MOD,
